@@ -404,6 +404,8 @@ def layout_data_written(ck, L):
 
 
 def run(ck):
+    if getattr(ck, 'depth', 0) >= 2:
+        return      # a shared run of a shared run: nothing of it is selected, and mutual sharing must end somewhere
     F = ck.facts
     L = F.lib
     B = F.bin
